@@ -474,7 +474,12 @@ static ssize_t do_send(int call, int fd, const void *buf, size_t len, int flags,
   }
   // stream
   if (s->state == SS_CONNECTING) { errno = EAGAIN; return -1; }
-  if (s->state != SS_CONNECTED) { errno = s->connect_done && s->so_error ? s->so_error : (s->was_connected ? EPIPE : ENOTCONN); return -1; }
+  if (s->state != SS_CONNECTED) {
+    if (s->connect_done && s->so_error) { errno = s->so_error; s->so_error = 0; return -1; }
+    // Linux: a stream socket that is not connected answers a write with EPIPE (and SIGPIPE unless suppressed)
+    if (!(flags & MSG_NOSIGNAL) && !proc_of(t->proc).sigpipe_ignored) { k->sigpipes++; ev("SIGPIPE", s->id); }
+    errno = EPIPE; return -1;
+  }
   if (s->rx_rst) { s->rx_rst = false; errno = ECONNRESET; return -1; }
   if (s->shut_wr || s->peer_gone) {
     // writing to a peer that has gone: EPIPE, and SIGPIPE unless suppressed
